@@ -115,8 +115,8 @@ func (c *wcurve) signFixed(d, k *big.Int, digest []byte) []byte {
 // ---------------------------------------------------------------------------------------
 
 func keyLines(st *stream, id string, sk crypto.PrivateKey, err error) {
+	st.addS(id+" verdict", errS(err))
 	if err != nil {
-		st.addS(id+" verdict", errS(err))
 		return
 	}
 	pk := sk.PublicKey()
@@ -127,8 +127,8 @@ func keyLines(st *stream, id string, sk crypto.PrivateKey, err error) {
 }
 
 func pubLines(st *stream, id string, pk crypto.PublicKey, err error) {
+	st.addS(id+" verdict", errS(err))
 	if err != nil {
-		st.addS(id+" verdict", errS(err))
 		return
 	}
 	st.add(id+" pk", pk.Encode())
@@ -211,7 +211,7 @@ func ecdsaSections() {
 				return "done"
 			})
 			if res != "done" {
-				st.addS(k.id+" verdict", res)
+				st.addS(k.id+" panic", res)
 			}
 		}
 
